@@ -1,6 +1,7 @@
 """C13 — dependency listings are complete and ordered; `uses` is their inverse.
 
 Implementation: `Eups.getDependentProducts` (every declared product as root, topological x checkCycles),
+`Distrib._createDeps` (the installation order derived from the topological listing, every product as root),
 `Eups.uses` (every product, with and without version, and unresolvable names), on Eups instances configured
 the way `eups list --dependencies` / `eups uses` configure them; a sample of the same queries is also run
 through the real command line, one process per command.  `utils.topologicalSort` and
@@ -15,11 +16,14 @@ from . import common
 from . import lib_deps as L
 from .common import parallel_map
 
-RULE = ("cases = (declared graph, root, topological, checkCycles) listings, (declared graph, uses target with or "
+RULE = ("cases = (declared graph, root, topological, checkCycles) listings, (declared graph, root) installation orders "
+        "of Distrib._createDeps, (declared graph, products set up, root, mode) `--setup` listings, (declared graph, uses target with or "
         "without version) queries, and integer graphs given to topologicalSort/stronglyConnectedComponents; graphs "
         "are generated from shapes (chain, diamond, shared sub-tree, random DAG, cyclic, name-cyclic across versions) "
         "with optional edges, explicit versions of declared and undeclared versions, two versions of one product, "
-        "names without a current version, unresolvable names, -j and unsetupRequired lines, products declared without a "
+        "versions that are string prefixes of one another (1.2 / 1.2.11 / 1.20, 1 / 10 / 1.0, 2.0 / 2.0+1 / 2.0-rc1) each with a user "
+        "of its own and queried one by one together with undeclared beginnings and continuations, "
+        "names without a current version, unresolvable names, -j, --external and unsetupRequired lines, products declared without a "
         "table file or with a table file missing on disk, plus an exhaustive family "
         "(4 products, every subset of 3 candidate lines per table: 4096 graphs; all of them in the thorough tier, a "
         "seed-dependent slice of 30 otherwise); a listing is "
@@ -40,6 +44,9 @@ MODES = [[False, False], [True, False], [True, True], [False, True]]
 
 # ---- generator ---------------------------------------------------------------------------------------
 
+PREFIX_FAMILIES = [["1.2", "1.2.11", "1.20"], ["1", "10", "1.0"], ["2.0", "2.0+1", "2.0-rc1"], ["3", "3.1", "3.10"]]
+
+
 def gen_graph(rng, wide=False):
     shape = rng.choice(["chain", "diamond", "shared", "dag", "dag", "dag2", "cyclic", "cyclic", "namecycle", "tiny"])
     n = rng.randint(2, 4) if shape == "tiny" else rng.randint(4, 8 if wide else 7)
@@ -57,10 +64,18 @@ def gen_graph(rng, wide=False):
     p_uns = 0.15 if rng.random() < 0.12 else 0.0
     p_j = rng.choice([0.15, 0.3]) if rng.random() < 0.3 else 0.0
     p_missing = 0.25 if (p_uns == 0.0 and rng.random() < 0.1) else 0.0
+    p_skip = 0.2 if rng.random() < 0.15 else 0.0          # table lines with --external
     p_expl = rng.choice([0.0, 0.3, 0.6])
     versions = {}
     for m in names:
         versions[m] = rng.sample(vpool[:2] if len(vpool) == 3 else vpool, 2) if rng.random() < two else [rng.choice(vpool)]
+    # versions that are string prefixes of one another (a version query must match the whole version, not its beginning)
+    prefixed = []
+    if rng.random() < 0.4:
+        for m in rng.sample(names, min(len(names), rng.choice([1, 1, 2]))):
+            fam = rng.choice(PREFIX_FAMILIES)
+            versions[m] = rng.sample(fam, rng.choice([2, 3, 3]))
+            prefixed.append(m)
     prods = []
     for i, m in enumerate(names):
         r = rng.random()
@@ -86,6 +101,8 @@ def gen_graph(rng, wide=False):
                     else:
                         ver = None
                     deps.append({"k": "opt" if rng.random() < 0.25 else "req", "n": t, "v": ver, "j": rng.random() < p_j})
+                    if p_skip and rng.random() < p_skip:
+                        deps[-1]["external"] = True
             if rng.random() < p_unres:
                 deps.insert(rng.randint(0, len(deps)), {"k": rng.choice(["req", "opt"]), "n": "zz", "v": rng.choice([None, None, "1"]), "j": False})
             if deps and rng.random() < p_uns:
@@ -95,6 +112,13 @@ def gen_graph(rng, wide=False):
                 prods[-1]["notable"] = True        # declared without a table file
             elif p_missing and rng.random() < p_missing:
                 prods[-1]["missing"] = True        # declared with a table file that is not there
+    for m in prefixed:
+        # each of the versions gets a user of its own (an explicit-version line in the table of a distinct product)
+        others = [q for q in prods if q["name"] != m]
+        rng.shuffle(others)
+        for v, q in zip(versions[m], others):
+            q["deps"].append({"k": rng.choice(["req", "req", "opt"]), "n": m, "v": v, "j": False})
+            q.pop("notable", None)
     if rng.random() < 0.3 and len(names) >= 3:
         # a product reached through a -j line and through an ordinary path, in both orders, the -j target having
         # dependencies of its own: it must be opened by the ordinary visit whichever comes first
@@ -162,7 +186,18 @@ def queries_of(graph):
     out = []
     for n in names:
         out.append([n, None])
-        for v in sorted(vers.get(n, ())):
+        mine = sorted(vers.get(n, ()))
+        for v in mine:
+            out.append([n, v])
+        # versions declared nowhere that are a beginning of one that is (and one that continues a declared one)
+        extra = []
+        for v in mine:
+            for k in range(1, len(v)):
+                if v[:k] not in vers[n] and v[:k] not in extra:
+                    extra.append(v[:k])
+            if v + "0" not in vers[n] and v + "0" not in extra:
+                extra.append(v + "0")
+        for v in extra[:3]:
             out.append([n, v])
     return out
 
@@ -186,8 +221,8 @@ class Resolved:
             node = (key[0], key[1], True)
             out = []
             for d in p["deps"]:
-                if d["k"] in ("unreq", "unopt"):
-                    continue
+                if d["k"] in ("unreq", "unopt") or d.get("external"):
+                    continue            # --external lines denote nothing for a listing
                 v = d["v"] if d["v"] else self.cur.get(d["n"])
                 t = (d["n"], v, True) if v is not None and (d["n"], v) in self.decl else (d["n"], d["v"], False)
                 out.append((t, bool(d.get("j")), d["k"] == "opt"))
@@ -292,11 +327,45 @@ def oracle_listing(R, root, mode, out, stats=None):
                     return
 
 
-def oracle_users(R, graph, query, out, reach_cache):
-    n, v = query
-    if isinstance(out, str):
-        yield ("uses_no_error", None, "uses raised %s" % out)
+def oracle_build(R, root, out):
+    """The installation order: the root comes last, and no product comes before one of its dependencies from another
+    component (products in two versions: D31)."""
+    rootn = (root[0], root[1], True)
+    listed, expanded = R.closure(rootn)
+    if any(R.has_unsetup.get(u) for u in expanded):
         return
+    nodes = listed | expanded
+    names = {}
+    for a in nodes:
+        names.setdefault(a[0], set()).add(a)
+    twover = any(len(s) > 1 for s in names.values())
+    required_unresolved = any(not t[2] and not o for u in expanded for t, _, o in R.succ.get(u, []))
+    if isinstance(out, str):
+        if out == "NotFound" and required_unresolved:
+            return
+        yield ("build_no_error", "D31" if (twover and out == "NotFound") else None, "_createDeps raised %s" % out)
+        return
+    if out[-1][:2] != [root[0], root[1]]:
+        yield ("build_root_last", None, "the product itself is not installed last")
+    pos = {}
+    for i, p in enumerate(out):
+        pos.setdefault((p[0], p[1], True), i)
+    reach = R.reach(nodes, expanded)
+    want = {(t[0], t[1]) for t in listed if t[2]} | {(root[0], root[1])}
+    if {(p[0], p[1]) for p in out} != want:
+        yield ("build_is_closure", "D31" if twover else None, "installs %s, closure %s" % (sorted({(p[0], p[1]) for p in out}), sorted(want)))
+        return
+    for u in expanded:
+        for t, _, _ in R.succ.get(u, []):
+            if t[2] and t in pos and u in pos and not (t in reach and u in reach.get(t, ())) and not pos[t] < pos[u]:
+                yield ("build_order", "D31" if twover else None, "%s is installed before its dependency %s" % (u, t))
+                return
+
+
+def expected_users(R, query, reach_cache):
+    """{(user, user's version, version needed, optional)} for the query, from the generated graph alone; None when a
+    table the property says nothing about (unsetup line, missing file) is involved"""
+    n, v = query
     want = set()
     for key in R.decl:
         node = (key[0], key[1], True)
@@ -309,10 +378,20 @@ def oracle_users(R, graph, query, out, reach_cache):
             reach_cache[node] = (listed - {node}, any(R.has_unsetup.get(u) for u in expanded), allopt)
         listed, uns, allopt = reach_cache[node]
         if uns:
-            return
+            return None
         for t in listed:
             if t[0] == n and (v is None or t[1] == v):
                 want.add((key[0], key[1], t[1], allopt[t]))
+    return want
+
+
+def oracle_users(R, graph, query, out, reach_cache):
+    if isinstance(out, str):
+        yield ("uses_no_error", None, "uses raised %s" % out)
+        return
+    want = expected_users(R, query, reach_cache)
+    if want is None:
+        return
     got = [(u[0], u[1], u[2], u[3]) for u in out]
     if set(got) != want:
         yield ("uses_inverse", None, "missing %s, extra %s" % (sorted(want - set(got), key=repr), sorted(set(got) - want, key=repr)))
@@ -328,6 +407,21 @@ def _listing(root, mode):
     plist = e.findProducts(root[0], root[1], None)
     plist.sort(key=lambda p: (p.name, p.version))
     return L.canon_listing(e.getDependentProducts(plist[0], False, topological=mode[0], checkCycles=mode[1]))
+
+
+def _build(root):
+    """`Distrib._createDeps`: the installation order the distribution machinery derives from the topological listing"""
+    import io
+    from eups.distrib.Distrib import Distrib
+    ecmd = L.cli_eups("list", ["-D", "--topological"] + list(root))
+    e = ecmd.createEups(ecmd.opts, versionName=root[1], quiet=1)
+    m = Distrib(e, None, verbosity=0, log=io.StringIO())._createDeps(root[0], root[1])
+    return [[p.product, p.version, bool(p.isOpt)] for p in m.getProducts()]
+
+
+def build_err(ex):
+    c = L.err_class(ex)
+    return "Undetermined" if (c == "Other(EupsException)" and "Unable to determine dependencies" in str(ex)) else c
 
 
 def run_impl(job):
@@ -349,6 +443,12 @@ def run_impl(job):
                 except BaseException as ex:  # noqa
                     row.append(L.err_class(ex))
             lists.append(row)
+        builds = []
+        for r in roots:
+            try:
+                builds.append(L.quietly(_build, r))
+            except BaseException as ex:  # noqa
+                builds.append(build_err(ex))
         users, uses = None, None
         if queries:
             try:
@@ -365,7 +465,7 @@ def run_impl(job):
                         users.append(L.canon_users(L.quietly(e.uses, n, v, 9999, usesInfo=info)))
                     except BaseException as ex:  # noqa
                         users.append(L.err_class(ex))
-        return {"lists": lists, "uses": uses, "users": users}
+        return {"lists": lists, "builds": builds, "uses": uses, "users": users}
     finally:
         common.rmtree(root)
 
@@ -392,6 +492,13 @@ def run_cli_sample(job):
         else:
             val = res["error"] or "rc=%s" % res["rc"]
         printed = None
+        if kind == "uses" and not isinstance(val, str):
+            # what `eups uses --optional` printed after the header: product, version[, version needed][Optional]
+            printed = []
+            for line in res["stdout"].splitlines()[1:]:
+                parts = line.split()
+                if len(parts) >= 2:
+                    printed.append([parts[0], parts[1], line.rstrip().endswith("Optional")])
         if kind == "list" and not isinstance(val, str):
             # what `eups list -D` printed: lines "<indent><name>   <version>"
             printed = []
@@ -402,6 +509,78 @@ def run_cli_sample(job):
         return {"val": val, "printed": printed}
     finally:
         common.rmtree(root)
+
+
+def _listing_setup(root, mode):
+    """`eups list -D --setup [--topological] [--checkCycles] name`: the root is the set-up version of `name`"""
+    ecmd = L.cli_eups("list", ["-D", "--setup"] + (["--topological"] if mode[0] else []) + (["--checkCycles"] if mode[1] else []) + [root[0]])
+    e = ecmd.createEups(ecmd.opts, versionName=None, quiet=1)
+    plist = e.getSetupProducts(root[0])
+    plist.sort(key=lambda p: (p.name, p.version))
+    return L.canon_listing(e.getDependentProducts(plist[0], True, topological=mode[0], checkCycles=mode[1]))
+
+
+def run_impl_setup(job):
+    """One forked child per (graph, set of set-up products): the `--setup` listings of every set-up product."""
+    graph, setup = job
+    root = common.scratch("c13s")
+    devnull = os.open(os.devnull, os.O_WRONLY)
+    os.dup2(devnull, 1)
+    os.dup2(devnull, 2)
+    try:
+        s = L.install(root, graph)
+        L.set_up_in_env(s, setup)
+        lists = []
+        for r in setup:
+            row = []
+            for mode in MODES:
+                try:
+                    row.append(L.quietly(_listing_setup, r, mode))
+                except BaseException as ex:  # noqa
+                    row.append(L.err_class(ex))
+            lists.append(row)
+        return {"lists": lists}
+    finally:
+        common.rmtree(root)
+
+
+def in_child_setup(job):
+    r = common.in_child(run_impl_setup, job)
+    return r[1] if r[0] == "ok" else {"crash": r}
+
+
+def gen_setup(rng, graph):
+    """one declared version of some products with plain names, as `setup` would leave them in the environment"""
+    byname = {}
+    for p in graph["products"]:
+        if p["name"].isalnum() and not p.get("missing"):
+            byname.setdefault(p["name"], []).append(p["version"])
+    names = sorted(byname)
+    if len(names) < 2:
+        return []
+    chosen = rng.sample(names, rng.randint(2, min(len(names), 5)))
+    return sorted([n, rng.choice(byname[n])] for n in chosen)
+
+
+def oracle_setup_listing(R, setup, root, mode, out):
+    """`--setup`: the listing names, for every product name the closure of the root holds (the root itself aside),
+    the version of it that is set up, and nothing else."""
+    rootn = (root[0], root[1], True)
+    listed, expanded = R.closure(rootn)
+    if any(R.has_unsetup.get(u) for u in expanded):
+        return
+    if isinstance(out, str):
+        if out == "Cycle" and mode[1]:
+            return                      # cycles: the clause of the plain listings
+        yield ("setup_no_error", None, "listing raised %s" % out)
+        return
+    sv = {n: v for n, v in setup}
+    want = {(t[0], sv[t[0]], True) for t in listed if t != rootn and t[0] in sv}
+    got = [(e[0], e[1], e[2]) for e in out]
+    if set(got) != want:
+        yield ("setup_listing_exact", None, "missing %s, extra %s" % (sorted(want - set(got)), sorted(set(got) - want)))
+    elif (mode[0] or mode[1]) and len(got) != len(set(got)):
+        yield ("listed_once", None, "a product is listed twice")
 
 
 def in_child_job(job):
@@ -470,6 +649,13 @@ def evaluate(ctx, graphs, ncli=2, corpus=False):
             ctx.hist("graph:has_product_without_table")
         if any(p.get("missing") for p in g["products"]):
             ctx.hist("graph:has_missing_table_file")
+        if any(d.get("external") for p in g["products"] for d in p["deps"]):
+            ctx.hist("graph:has_skipped_lines")
+        byn = {}
+        for p in g["products"]:
+            byn.setdefault(p["name"], []).append(p["version"])
+        if any(a != b and b.startswith(a) for vs in byn.values() for a in vs for b in vs):
+            ctx.hist("graph:has_prefix_versions")
         for ri, r in enumerate(roots):
             for mi, mode in enumerate(MODES):
                 out, mo = io_["lists"][ri][mi], ml[ri][mi]
@@ -482,6 +668,16 @@ def evaluate(ctx, graphs, ncli=2, corpus=False):
                     ctx.disagree("listing", inp, out, mo)
                 for clause, fid, detail in oracle_listing(R, r, mode, out, ctx.hist if mi == 0 else None):
                     ctx.fail(clause, inp, out, mo, note=detail, finding=fid)
+        mb = [(b["list"] if b["out"] == "ok" else b["out"]) for b in ans["builds"]]
+        for ri, r in enumerate(roots):
+            out, mo = io_["builds"][ri], mb[ri]
+            inp = {"graph": g, "root": r, "build": True}
+            ctx.case(key=[g["products"], r, "build"], nontrivial=bool(R.succ.get((r[0], r[1], True))))
+            ctx.hist("build:%s" % (out if isinstance(out, str) else "ok"))
+            if out != mo:
+                ctx.disagree("build_order", inp, out, mo)
+            for clause, fid, detail in oracle_build(R, r, out):
+                ctx.fail(clause, inp, out, mo, note=detail, finding=fid)
         if queries:
             ctx.hist("uses:%s" % io_["uses"])
             if io_["uses"] != ans.get("uses"):
@@ -504,16 +700,57 @@ def evaluate(ctx, graphs, ncli=2, corpus=False):
                     inp = {"graph": g, "query": q}
                     ctx.case(key=[g["products"], "uses", q], nontrivial=bool(out) and not isinstance(out, str))
                     ctx.hist("users:%s" % (out if isinstance(out, str) else ("some" if out else "none")))
+                    if q[1] is not None:
+                        mine = expected_users(R, q, cache)
+                        for q2 in queries:
+                            if q2[0] == q[0] and q2[1] and q2[1] != q[1] and q2[1].startswith(q[1]):
+                                other = expected_users(R, q2, cache)
+                                if mine is not None and other and {(u[0], u[1]) for u in other} - {(u[0], u[1]) for u in mine}:
+                                    ctx.hist("users:prefix_version_with_distinct_users")
+                                    break
                     if out != mo:
                         ctx.disagree("users", inp, out, mo)
                     for clause, fid, detail in oracle_users(R, g, q, out, cache):
+                        ctx.fail(clause, inp, out, mo, note=detail, finding=fid)
+    # `eups list -D --setup`: a third of the graphs, with two to five products set up
+    sjobs = []
+    for g, roots, queries in jobs:
+        if ctx.rng.random() < 0.35 and not any(d["k"] in ("unreq", "unopt") for p in g["products"] for d in p["deps"]):
+            su = gen_setup(ctx.rng, g)
+            if su:
+                sjobs.append((g, su))
+    if sjobs:
+        simpl = parallel_map(in_child_setup, sjobs, workers=6)
+        sans = ctx.lean.ask_many([{"m": "c13", "op": "setup", "graph": {"products": g["products"]}, "setup": su,
+                                   "roots": su, "modes": MODES} for g, su in sjobs])
+        for (g, su), io_, ans in zip(sjobs, simpl, sans):
+            if "bad-op" in ans:
+                raise common.InfraError("driver rejected a C13 setup request: %s" % ans["bad-op"])
+            if "crash" in io_:
+                raise common.InfraError("implementation child failed: %r" % (io_["crash"],))
+            R = Resolved(g)
+            ml = model_lists(ans)
+            for ri, r in enumerate(su):
+                for mi, mode in enumerate(MODES):
+                    out, mo = io_["lists"][ri][mi], ml[ri][mi]
+                    inp = {"graph": g, "setup": su, "root": r, "mode": mode}
+                    ctx.case(key=[g["products"], su, r, mode], nontrivial=bool(R.succ.get((r[0], r[1], True))))
+                    ctx.hist("setup_listing:%s" % (out if isinstance(out, str) else ("some" if out else "empty")))
+                    if out != mo:
+                        ctx.disagree("setup_listing", inp, out, mo)
+                    for clause, fid, detail in oracle_setup_listing(R, su, r, mode, out):
                         ctx.fail(clause, inp, out, mo, note=detail, finding=fid)
     # the command-line sample: must equal what the API gave (hence the model)
     for (gi, kind, a), res in zip(clijobs, cliout):
         g, roots, queries = jobs[gi]
         out = res["val"]
         ctx.hist("cli:%s" % kind)
-        if res["printed"] is not None:
+        if res["printed"] is not None and kind == "uses":
+            want = [[u[0], u[1], u[3]] for u in out]
+            if res["printed"] != want:
+                ctx.fail("cli_prints_users", {"graph": g, "query": queries[a], "via": "command line"},
+                         res["printed"], want, note="eups uses printed something else than the users it computed")
+        elif res["printed"] is not None:
             want = expected_print(roots[a[0]], MODES[a[1]], out)
             if res["printed"] != want:
                 ctx.fail("cli_prints_listing", {"graph": g, "root": roots[a[0]], "mode": MODES[a[1]], "via": "command line"},
@@ -669,7 +906,8 @@ def run(ctx):
     h = ctx.histogram
     if not ctx.escalated and n >= 100:
         for need in ("closure:cyclic", "closure:two_declared_versions", "closure:unresolved", "shape=cyclic",
-                     "closure:j_target_opened_elsewhere", "closure:j_target_not_opened"):
+                     "closure:j_target_opened_elsewhere", "closure:j_target_not_opened", "graph:has_prefix_versions",
+                     "users:prefix_version_with_distinct_users"):
             if not h.get(need):
                 raise common.InfraError("degenerate distribution: no case with %s" % need)
 
@@ -688,6 +926,14 @@ def replay(ctx, rp):
     g = inp["graph"]
     R = Resolved(g)
     cli_fails = []
+    if "setup" in inp:
+        io_ = in_child_setup((g, inp["setup"]))
+        ans = ctx.lean.ask({"m": "c13", "op": "setup", "graph": {"products": g["products"]}, "setup": inp["setup"],
+                            "roots": inp["setup"], "modes": MODES})
+        ri, mi = inp["setup"].index(inp["root"]), MODES.index(inp["mode"])
+        out, mo = io_["lists"][ri][mi], model_lists(ans)[ri][mi]
+        fails = [{"clause": c, "class": f, "detail": d} for c, f, d in oracle_setup_listing(R, inp["setup"], inp["root"], inp["mode"], out)]
+        return {"input": inp, "impl_output": out, "model_output": mo, "agree": out == mo, "fails": fails}
     if "root" in inp:
         roots, queries = [inp["root"]], []
     else:
@@ -696,14 +942,22 @@ def replay(ctx, rp):
         kind = "list" if "root" in inp else "uses"
         res = in_child_cli((g, kind, (inp["root"], inp["mode"]) if kind == "list" else inp["query"]))
         out = res["val"]
-        if res["printed"] is not None and res["printed"] != expected_print(inp["root"], inp["mode"], out):
+        if res["printed"] is not None and kind == "uses":
+            if res["printed"] != [[u[0], u[1], u[3]] for u in out]:
+                cli_fails.append({"clause": "cli_prints_users", "class": None, "detail": "printed %s" % (res["printed"],)})
+        elif res["printed"] is not None and res["printed"] != expected_print(inp["root"], inp["mode"], out):
             cli_fails.append({"clause": "cli_prints_listing", "class": None,
                               "detail": "printed %s, listing %s" % (res["printed"], expected_print(inp["root"], inp["mode"], out))})
         io_ = {"lists": [[out if m == inp.get("mode") else None for m in MODES]], "uses": "ok", "users": [out]}
     else:
         io_ = in_child_job((g, roots, queries))
     ans = ctx.lean.ask(model_request(g, roots, queries))
-    if roots:
+    if inp.get("build"):
+        out = io_["builds"][0]
+        b = ans["builds"][0]
+        mo = b["list"] if b["out"] == "ok" else b["out"]
+        fails = [{"clause": c, "class": f, "detail": d} for c, f, d in oracle_build(R, inp["root"], out)]
+    elif roots:
         mi = MODES.index(inp["mode"])
         out, mo = io_["lists"][0][mi], model_lists(ans)[0][mi]
         fails = [{"clause": c, "class": f, "detail": d} for c, f, d in oracle_listing(R, inp["root"], inp["mode"], out)]
